@@ -8,7 +8,7 @@ Model of the identifier handling of `acmed`:
 * `acmed/src/certificate.rs:60-88` `Certificate::get_identifier_from_str(identifier, wildcard)` (CURRENT
   tree, after commit 8d0daa7) and the version before that commit (`lookupOld`)
 * `acmed/src/acme_proto/structs/order.rs:18-26, 83-90` `NewOrder::new`
-* `acmed/src/acme_proto.rs:225-237` the `domains` / `ips` split handed to `Csr::new`
+* `acmed/src/acme_proto.rs:229-240` the `domains` / `ips` split handed to `Csr::new` (`:241-247`)
 
 Parameters (inputs, not modelled): `lowerStr` (Unicode `str::to_lowercase`), `ipCanon`
 (`IpAddr::from_str(v)?.to_string()`), `ipOctets` (`IpAddr::from_str` as 4 or 16 octets).
@@ -136,11 +136,11 @@ def mkIdentifiers (P : Params) : List RawId → Except NewRes (List Identifier)
 def orderIds (ids : List Identifier) : List (IdType × List Char) :=
   ids.map fun i => (i.idType, i.value)
 
-/-- `acme_proto.rs:226-231`. -/
+/-- `acme_proto.rs:229-234`. -/
 def csrDomains (ids : List Identifier) : List (List Char) :=
   (ids.filter fun e => e.idType = .dns).map (·.value)
 
-/-- `acme_proto.rs:232-237`. -/
+/-- `acme_proto.rs:235-240`. -/
 def csrIps (ids : List Identifier) : List (List Char) :=
   (ids.filter fun e => e.idType = .ip).map (·.value)
 
